@@ -31,6 +31,7 @@ WIDE = dict(
     plan={"time": 0.8, "cust": 0.2, "deadlock": 0.0},
     horizon=[5.0, 12.0, 30.0],
     splits=1,
+    mixed=0.25,       # a count-based call in between two horizon-based ones on the same Simulation
     spawn=0.5,
     tdep=0.15,
     restricted=False,
@@ -347,6 +348,13 @@ def gen_spec(r, P):
                 S["plan"].append(["spawn"])
             if r.random() < P.get("peek", 0.3):
                 S["plan"].append(["peek"])
+            if r.random() < P.get("mixed", 0.25):
+                # the caller switches method in between: a few more customers, then on to the next horizon
+                S["plan"].append(["cust", r.randint(1, 6), r.choice(["Arrive", "Accept", "Finish"]), "more"])
+                for c in classes:
+                    for t in arr[c]:
+                        if t is not None:
+                            t.pop("inf_after", None)
         S["plan"].append(["time", T])
     elif pk == "cust":
         S["plan"] = [["cust", r.randint(1, 15), r.choice(["Complete", "Finish", "Arrive", "Accept"])]]
